@@ -155,7 +155,7 @@ async def kiq_case(asyncs, fail_at):
     return pr
 
 # ---------------------------------------------------------------- (d)
-def loop_case(start_off, horizon, oneshots, crons, failing_source, failing_send):
+def loop_case(start_off, horizon, oneshots, crons, failing_source, failing_send, slow_listing=0.0):
     """oneshots: list of offsets (s) from BASE; crons: list of cron expressions"""
     import taskiq.cli.scheduler.run as run_mod
     from taskiq import TaskiqScheduler, ScheduleSource
@@ -183,7 +183,10 @@ def loop_case(start_off, horizon, oneshots, crons, failing_source, failing_send)
     for i, c in enumerate(crons): b.register_task(f, task_name=f'cron{i}', schedule=[{'cron': c}])
     class Bad(ScheduleSource):
         async def get_schedules(self): raise RuntimeError("listing failed")
-    sources = [LabelScheduleSource(b)] + ([Bad()] if failing_source else [])
+    class Slow(LabelScheduleSource):
+        async def get_schedules(self):
+            await asyncio.sleep(slow_listing); return await super().get_schedules()
+    sources = [Slow(b) if slow_listing else LabelScheduleSource(b)] + ([Bad()] if failing_source else [])
     sched = TaskiqScheduler(b, sources)
     async def main():
         await asyncio.sleep(start_off)
@@ -196,7 +199,7 @@ def loop_case(start_off, horizon, oneshots, crons, failing_source, failing_send)
     finally: loop.close(); run_mod.datetime = real_dt
     pr = []
     if any(s[0] == 'LOOP DIED' for s in sent): pr.append(f"C15: the scheduler loop stopped: {sent[-1]}")
-    for i, off in enumerate(oneshots):
+    for i, off in enumerate(oneshots if not slow_listing else []):          # with a slow source only 'never twice in one minute' is checked: the statement bounds send latencies, not listing latencies
         k = [s for s in sent if s[1] == f'once{i}']
         due = max(off, start_off)
         if off <= horizon - 62:
@@ -210,7 +213,7 @@ def loop_case(start_off, horizon, oneshots, crons, failing_source, failing_send)
         import pycron
         want = [mi for mi in range(first, last + 1) if pycron.is_now(c, BASE + _dt.timedelta(minutes=mi))]
         if failing_send and i == 0 and want: want = want[1:] if mins and mins[0] != want[0] else want
-        if mins != want: pr.append(f"C15: cron schedule {c!r} sent in minutes {mins}, expected {want}")
+        if mins != want and not slow_listing: pr.append(f"C15: cron schedule {c!r} sent in minutes {mins}, expected {want}")
     return pr
 
 def run(sc):
@@ -235,7 +238,10 @@ def run(sc):
                 for crons, failing_source, failing_send in ((['* * * * *'], False, False), (['*/2 * * * *', '1,3 * * * *'], True, False), (['* * * * *'], False, True)):
                     pr = loop_case(start_off, 330.0, oneshots, crons, failing_source, failing_send); n += 1
                     if pr: fails.append({'key': f"loop/start+{start_off}/oneshots={oneshots}/crons={crons}/{failing_source}/{failing_send}", 'failed_clauses': pr})
-    return {'reproduced': bool(fails), 'runs': n, 'n_failures': len(fails), 'failures': fails[:8]}
+        for start_off, slow in ((59.7, 0.6), (30.0, 0.6), (59.9, 45.0)):          # a source whose listing takes time, started so that the listing straddles a minute boundary
+            pr = loop_case(start_off, 330.0, [200.0], ['* * * * *'], False, False, slow_listing=slow); n += 1
+            if pr: fails.append({'key': f"loop/start+{start_off}/slow-listing={slow}", 'failed_clauses': pr})
+    return {'reproduced': bool(fails), 'runs': n, 'n_failures': len(fails), 'failures': fails[:400]}
 
 if __name__ == '__main__':
     sc = json.load(open(sys.argv[1])) if len(sys.argv) > 1 else {}
